@@ -470,6 +470,28 @@ func c02StatusTable(r *core.Run, a *atWorld) {
 					if c := st.Eq[o]; c != nil {
 						name = c.Name()
 					}
+				} else if call, ok := ast.Unparen(x).(*ast.CallExpr); ok && len(call.Args) == 1 {
+					// Status: statusOf(flag) — the mapping helper, run from the known value of the flag
+					if g := w.Info(core.Callee(info, call)); g != nil && g.Decl.Body != nil && g.Pkg == rf.Pkg && len(paramObjs(g)) == 1 {
+						if ao := core.ObjOf(info, call.Args[0]); ao != nil && (st.IsTrue(ao) || st.IsFalse(ao)) {
+							known := st.IsTrue(ao)
+							names := map[string]bool{}
+							for _, ex := range (&flow.Spec{W: w, Depth: 0}).AnalyzeSeed(g, func(s0 *flow.State) { s0.SetBool(paramObjs(g)[0], known) }).Exits {
+								if len(ex.Results) == 1 {
+									if c := core.ConstObj(g.Pkg.TypesInfo, ex.Results[0]); c != nil {
+										names[c.Name()] = true
+										continue
+									}
+								}
+								names["?"] = true
+							}
+							if len(names) == 1 {
+								for k := range names {
+									name = k
+								}
+							}
+						}
+					}
 				}
 				for t := range st.Must {
 					if strings.HasPrefix(t, "status:") {
